@@ -332,6 +332,35 @@ pub fn ring_ff5_gcd(s: &mut Src) -> R {
     Ok(())
 }
 
+/// Ratio<i32> products, quotients, inverses and negatives with operands of any size (BOUNDED, sampled; native only): whenever the exact result
+/// (computed in i128) is representable, the operation returns it in lowest terms with a positive denominator -- the cross-cancellation of
+/// `*` / `/` exists precisely so that no intermediate value exceeds the result.  (Sums are excluded: their intermediate a(d/g) + c(b/g) can
+/// exceed a representable result, a limitation of machine integers that is not claimed.)
+pub fn ring_ratio_mul_limits(s: &mut Src) -> R {
+    use yui::Ratio;
+    let (a, b, c, d) = (s.i32(), s.i32(), s.i32(), s.i32());
+    let shared = s.small(1, 50000) as i32;
+    pre!(b != 0 && d != 0 && a != i32::MIN && b != i32::MIN && c != i32::MIN && d != i32::MIN);
+    reach!();
+    fn g(a: i128, b: i128) -> i128 { if b == 0 { a.abs() } else { g(b, a % b) } }
+    let red = |n: i128, m: i128| -> (i128, i128) { let k = g(n, m); let (n, m) = (n / k, m / k); if m < 0 { (-n, -m) } else { (n, m) } };
+    let fits = |x: i128| x > i32::MIN as i128 && x <= i32::MAX as i128;
+    // make the two operands share a large factor across the diagonal (a/b * b'/c with b' a multiple of the same number), so that the exact
+    // result is small although the plain products are not
+    let (b2, c2) = (((b as i64 % 40000) as i32).saturating_mul(shared), ((c as i64 % 40000) as i32).saturating_mul(shared));
+    for &(a, b, c, d) in &[(a, b, c, d), (a, b2, c2, d)] {
+        if b == 0 || d == 0 { continue; }
+        let (x, y) = (Ratio::new(a, b), Ratio::new(c, d));
+        let (xn, xd) = red(a as i128, b as i128); let (yn, yd) = red(c as i128, d as i128);
+        let (pn, pd) = red(xn * yn, xd * yd);
+        if fits(pn) && fits(pd) { let z = &x * &y; ob!(*z.numer() as i128 == pn && *z.denom() as i128 == pd, "Ratio<i32>::mul-exact-when-representable"); }
+        if yn != 0 { let (qn, qd) = red(xn * yd, xd * yn); if fits(qn) && fits(qd) && fits(yd) && fits(yn) { let z = &x / &y; ob!(*z.numer() as i128 == qn && *z.denom() as i128 == qd, "Ratio<i32>::div-exact-when-representable"); } }
+        let z = -&x; ob!(*z.numer() as i128 == -xn && *z.denom() as i128 == xd, "Ratio<i32>::neg");
+        if xn != 0 { let (inn, ind) = red(xd, xn); let z = x.inv().unwrap(); ob!(*z.numer() as i128 == inn && *z.denom() as i128 == ind, "Ratio<i32>::inv"); }
+    }
+    Ok(())
+}
+
 /// FF<p> for moduli near the limits of the i32 representation (BOUNDED, sampled; native only): + - * neg inv against an i128 reference.
 /// p = 65537 (products of representatives exceed i32), p = 2^31 - 1 (sums do): defect D7, repaired in f4aad45.
 pub fn ring_ff_large(s: &mut Src) -> R {
@@ -503,6 +532,10 @@ pub fn ring_lc_ops(s: &mut Src) -> R {
     ob!(same(&c, &ddif), "Lc::sub_assign::coefficientwise-difference-no-zero-stored");
     let c = a.combine(&b, |x, y| x.clone() * y.clone());
     ob!(same(&c, &dmul), "Lc::combine::bilinear-extension-no-zero-stored");
+    // single-term constructors: From<(X, R)> (the base of PolyBase::from_const / from / one) stores nothing for a zero coefficient
+    let c0 = s.small(-1, 1);
+    let mut d1 = [0i64; 2 * N]; d1[1] = c0;
+    ob!(same(&L::from((X::from(1), c0)), &d1), "Lc::from((x, r))::single-term-no-zero-stored");
     // the map family: coefficients / generators mapped termwise, terms that become zero vanish, generators that collide add up
     let q = s.small(1, 3);
     let fc = |c: i64| c.rem_euclid(q + 1) - 1;                       // hits 0 for some non-zero coefficients
@@ -627,6 +660,6 @@ crate::harness_table!(RING:
     ring_ff2p_inv [unwind 8], ring_ff3_inv [unwind 8], ring_ff5_inv [unwind 8], ring_ff7_inv [unwind 10], ring_ff46337_inv [unwind 30],
     ring_f2,
     ring_qint_addsub_i32, ring_qint_mul_i32, ring_gauss_units_i32 , ring_eisen_units_i32 [unwind 8], ring_gauss_divrem_i32, ring_eisen_divrem_i32,
-    ring_gauss_gcd [unwind 6], ring_ff5_gcd [unwind 6], ring_ff_large, ring_ratio_ops [unwind 8], ring_poly_divrem [unwind 8], ring_hpoly_ops, ring_lc_ops, ring_polybase_ops, ring_poly2_eval,
+    ring_gauss_gcd [unwind 6], ring_ff5_gcd [unwind 6], ring_ff_large, ring_ratio_mul_limits, ring_ratio_ops [unwind 8], ring_poly_divrem [unwind 8], ring_hpoly_ops, ring_lc_ops, ring_polybase_ops, ring_poly2_eval,
     ring_qint_addsub_i64, ring_qint_mul_i64, ring_gauss_units_i64, ring_eisen_units_i64 [unwind 8], ring_gauss_divrem_i64, ring_eisen_divrem_i64,
 );
